@@ -99,14 +99,14 @@ def extractEntry (fmt : Fmt) (strip : Nat) (matcher : Str → Bool) (maxSize : N
     Except PErr Mem :=
   match fmt with
   | .tar =>
-    if isApple .tar e then .ok m
-    else match unmapArchivePath e.name strip matcher with
-      | .error er => .error er
-      | .ok none => .ok m
-      | .ok (some p) =>
-        if !e.isRegular then .ok m
-        else if maxSize ≠ 0 && decide (e.content.utf8ByteSize > maxSize) then .error .other
-        else memPut m p e.content
+    match unmapArchivePath e.name strip matcher with
+    | .error er => .error er
+    | .ok none => .ok m
+    | .ok (some p) =>
+      if !e.isRegular then .ok m
+      else if isApple .tar e then .ok m
+      else if maxSize ≠ 0 && decide (e.content.utf8ByteSize > maxSize) then .error .other
+      else memPut m p e.content
   | .zip =>
     match unmapArchivePath e.name strip matcher with
     | .error er => .error er
